@@ -179,6 +179,8 @@ pub struct RunOpts {
     pub stop_on_self_enqueue: bool,
     /// override the poll budget (watchdog)
     pub budget: Option<usize>,
+    /// mirror of the fringe length readable from a scheduler callback
+    pub len_mirror: Option<Arc<AtomicUsize>>,
 }
 
 pub struct RunOut {
@@ -315,7 +317,7 @@ pub fn run_table(t: &TableDP, o: &Oracle, cfg: &Config, opts: &RunOpts) -> RunOu
     let last_pop: Arc<Mutex<Vec<(u32, St, usize)>>> = Arc::new(Mutex::new(vec![]));
     let lp = last_pop.clone();
     let on_pop: Arc<dyn Fn(&SubProblem<St>) + Send + Sync> = Arc::new(move |n: &SubProblem<St>| {
-        let tag = THREAD_TAG.with(|t| t.get());
+        let tag = thread_tag();
         let mut g = lp.lock();
         g.retain(|e| e.0 != tag);
         g.push((tag, (*n.state).clone(), n.depth));
@@ -325,7 +327,7 @@ pub fn run_table(t: &TableDP, o: &Oracle, cfg: &Config, opts: &RunOpts) -> RunOu
     let cut2 = cut.clone();
     let stop = opts.stop_on_self_enqueue;
     let on_push: Arc<dyn Fn(&SubProblem<St>) + Send + Sync> = Arc::new(move |n: &SubProblem<St>| {
-        let tag = THREAD_TAG.with(|t| t.get());
+        let tag = thread_tag();
         let g = lp.lock();
         if g.iter().any(|e| e.0 == tag && e.1 == *n.state && e.2 == n.depth) {
             se.store(true, AO::SeqCst);
@@ -334,7 +336,7 @@ pub fn run_table(t: &TableDP, o: &Oracle, cfg: &Config, opts: &RunOpts) -> RunOu
             }
         }
     });
-    let mut fringe = RecFringe { inner: inner_fringe, log: log.clone(), len_mirror: Arc::new(AtomicUsize::new(0)), on_push: Some(on_push), on_pop: Some(on_pop) };
+    let mut fringe = RecFringe { inner: inner_fringe, log: log.clone(), len_mirror: opts.len_mirror.clone().unwrap_or_else(|| Arc::new(AtomicUsize::new(0))), on_push: Some(on_push), on_pop: Some(on_pop) };
     if true {
         set_cache_observer::<St>(Some(Arc::new(LogCacheObs { log: log.clone(), yield_hook: fine.clone() })));
     } else {
